@@ -119,7 +119,9 @@ class Ctx:
         meta = self.scratch / f"meta-{tag}"
         if meta.exists():
             shutil.rmtree(meta)
-        cmd = ["java", "-XX:+UseParallelGC"]
+        jtmp = self.scratch / "jtmp"           # TLC leaves an empty tlc-<n> directory per run in java.io.tmpdir
+        jtmp.mkdir(exist_ok=True)
+        cmd = ["java", "-XX:+UseParallelGC", f"-Djava.io.tmpdir={jtmp}"]
         if heap:
             cmd.append(f"-Xmx{heap}")
         cmd += ["-cp", "/opt/veriftools/tla/tla2tools.jar:/opt/veriftools/tla/CommunityModules-deps.jar",
